@@ -24,11 +24,12 @@ from core import cps, MachineryError
 CFG = """SPECIFICATION Spec
 CONSTANTS
   Clients = {"c1", "c2"}
+  NoPersist = {%s}
   MaxCalls = %d
 %s
 """
 INVS = ["INVARIANT ProfileIsAnonymous", "INVARIANT ProfileGoesToConfiguredUrl", "INVARIANT CredentialsOnlyWhereAllowed",
-        "INVARIANT CookieIsolation", "INVARIANT CookieReplay", "PROPERTY NoPostOnDryRun", "PROPERTY OnePostPerRequest"]
+        "INVARIANT CookieIsolation", "INVARIANT CookieReplay", "INVARIANT NonPersistingSendsNone", "PROPERTY NoPostOnDryRun", "PROPERTY OnePostPerRequest"]
 # the advertised service URL has upper-case characters in its path: a request goes to the URL as advertised
 HOSTURL = {"cfg": "https://cfg.invalid/ofx", "svc": "https://svc.invalid/OFXServer/Stmt.dll"}
 URLHOST = {"https://cfg.invalid/ofx": "cfg", "https://svc.invalid/OFXServer/Stmt.dll": "svc"}
@@ -43,17 +44,21 @@ def run(ctx):
     rnd = random.Random(ctx.seed * 532801 + 14)
     ctx.rule = ("M: all states of MC_Net; G: TLC-simulated histories (4-6 calls, 2 clients) replayed; T: plus seeded histories of up "
                 "to 10 calls on 3 clients; non-trivial = distinct (kind, mode, advertised host, cookie-setting hosts, client) calls")
-    r = ctx.tlc("MC_Net", CFG % (3 if quick else 4, "\n".join(INVS)), tag="mc", timeout=900)
-    if r.violated:
-        raise MachineryError("MC_Net: %s" % r.violated)
-    sim = ctx.tlc("MC_Net", CFG % (5, "CONSTRAINT Emit"), workers=1, simulate="num=%d" % (45 if quick else 1500), depth=8, tag="sim")
-    behs = sim.printed_json("BEH")
+    behs = []
+    for nop in ("", '"c2"'):
+        r = ctx.tlc("MC_Net", CFG % (nop, 3 if quick else 4, "\n".join(INVS)), tag="mc" + ("-nopersist" if nop else ""), timeout=900)
+        if r.violated:
+            raise MachineryError("MC_Net: %s" % r.violated)
+        sim = ctx.tlc("MC_Net", CFG % (nop, 5, "CONSTRAINT Emit"), workers=1, simulate="num=%d" % (25 if quick else 800), depth=8,
+                      tag="sim" + ("-nopersist" if nop else ""))
+        behs += sim.printed_json("BEH")
     ctx.extra["spec_behaviours_replayed"] = len(behs)
     # random histories on three clients
     for _ in range(20 if quick else 800):
         calls = [{"client": rnd.choice(["c1", "c2", "c3"]), "kind": rnd.choice(["profile", "stmt", "acctinfo", "tax"]),
                   "mode": rnd.choice(["dry", "skip", "normal", "normal"])} for _ in range(rnd.randrange(1, 11))]
-        behs.append({"adv": rnd.choice(["cfg", "svc"]), "sets": {"cfg": rnd.random() < 0.6, "svc": rnd.random() < 0.6}, "calls": calls})
+        behs.append({"adv": rnd.choice(["cfg", "svc"]), "sets": {"cfg": rnd.random() < 0.6, "svc": rnd.random() < 0.6}, "calls": calls,
+                     "nop": [c for c in ("c2", "c3") if rnd.random() < 0.3]})
     net = fakenet.FakeNet()
     net.install()
     evs = []
@@ -80,14 +85,19 @@ def run(ctx):
                                                    msgsets=msgsets, closingavail=closing).encode()
                 return 200, ofx_server.empty_response(mins).encode()
             net.responder = responder
-            userid, password, ua = "user-" + str(bi), "p&w<%d>" % bi, rnd.choice(["InetClntApp/3.0", "MyAgent/1 x"])
+            userid, password = "user-" + str(bi), "p&w<%d>" % bi
+            nop = [c for c in beh.get("nop", [])]
+            # every client has its own user agent (sometimes equal ones); the ones in nop do not persist cookies
+            uas = {c: rnd.choice(["InetClntApp/3.0", "MyAgent/1 x", "ua-" + c]) for c in ("c1", "c2", "c3")}
             clients = {}
-            for c in ("c1", "c2", "c3"):
+            order = ["c1", "c2", "c3"]
+            rnd.shuffle(order)
+            for c in order:
                 # every client of a history talks to the same institution (equal ORG/FID) with the same login
                 clients[c] = OFXClient(HOSTURL["cfg"], userid=userid, org="ORG%d" % bi, fid="F", version=rnd.choice([102, 160, 203, 220]),
-                                       bankid="123", brokerid="b.com", useragent=ua)
+                                       bankid="123", brokerid="b.com", useragent=uas[c], persist_cookies=(c not in nop))
             evs.append({"id": "h%d" % bi, "op": "env", "adv": adv, "sets": {"cfg": bool(beh["sets"]["cfg"]), "svc": bool(beh["sets"]["svc"])},
-                        "userid": cps(userid), "password": cps(password), "useragent": cps(ua)})
+                        "userid": cps(userid), "password": cps(password), "useragent": {c: cps(uas[c]) for c in uas}, "nopersist": nop})
             for ci, call in enumerate(beh["calls"]):
                 cl = clients[call["client"]]
                 n0 = len(net.log)
